@@ -37,8 +37,8 @@ PROPERTY = "C17"
 HERMETIC = True  # one forked child per run: deserialization state kept at module level must not travel between runs
 LEVEL = "exploration"
 TIERS = {
-    "quick": {"wall": 40, "chunk": 10, "shrink_budget": 200, "shrink_wall": 60, "per_run_cap": 300.0},
-    "thorough": {"wall": 900, "chunk": 20, "shrink_budget": 400, "shrink_wall": 240, "per_run_cap": 600.0},
+    "quick": {"wall": 33, "optimize_wall": 7, "chunk": 10, "shrink_budget": 200, "shrink_wall": 60, "per_run_cap": 300.0},
+    "thorough": {"wall": 900, "optimize_wall": 120, "chunk": 20, "shrink_budget": 400, "shrink_wall": 240, "per_run_cap": 600.0},
 }
 RULE = (
     "each run = one generated valid model (nested subgraphs, functions, metadata, external and inline initializers, optional device "
@@ -92,6 +92,38 @@ def _hook(event, args):
 
 
 sys.addaudithook(_hook)
+
+
+# Path queries (stat / lstat / readlink / access / listdir / scandir) raise no audit event: while the audited window is
+# open they are observed at the os module itself (posixpath.realpath, os.path.exists, pathlib all go through these names)
+def _watch_os_function(name: str) -> None:
+    real = getattr(os, name, None)
+    if real is None or getattr(real, "_c17_watch", False):
+        return
+
+    def watched(*a, **k):
+        if _audit["on"] and a and not isinstance(a[0], int):
+            _audit["on"] = False
+            try:
+                try:
+                    p = os.fspath(a[0])
+                    if isinstance(p, bytes):
+                        p = p.decode("utf-8", "replace")
+                except Exception:  # noqa: BLE001
+                    p = repr(a[:1])
+                if not os.path.abspath(p).startswith(_IGNORED_PREFIXES):
+                    _audit["events"].append(("os." + name, p))
+            finally:
+                _audit["on"] = True
+        return real(*a, **k)
+
+    watched._c17_watch = True  # type: ignore[attr-defined]
+    watched.__name__ = name
+    setattr(os, name, watched)
+
+
+for _n in ("stat", "lstat", "readlink", "access", "listdir", "scandir"):
+    _watch_os_function(_n)
 
 
 class _Hang(BaseException):
@@ -569,6 +601,42 @@ def _inspect_tensors(model) -> int:
     return n
 
 
+_BASE_PATHS = ("", "rel/base", "/abs/nowhere/base", "./models/../weights", "~", "base\x00dir")
+
+
+def _probe_tensor_entry_point(proto, inc) -> None:
+    """The documented single-tensor entry point, with a base directory: every external tensor of the input."""
+    import pathlib
+
+    def graphs_of(g, depth=0):
+        yield g
+        if depth < 4:
+            for n in g.node:
+                for a in n.attribute:
+                    if a.HasField("g"):
+                        yield from graphs_of(a.g, depth + 1)
+                    for sg in a.graphs:
+                        yield from graphs_of(sg, depth + 1)
+
+    k = 0
+    for g in graphs_of(proto.graph):
+        for tp in g.initializer:
+            if tp.data_location != onnx.TensorProto.EXTERNAL:
+                continue
+            k += 1
+            if k > 6:
+                return
+            for j, bp in enumerate(_BASE_PATHS):
+                base = pathlib.Path(bp) if (k + j) % 3 == 0 and "\x00" not in bp else bp
+                try:
+                    t = ir.serde.deserialize_tensor(tp, base)
+                    _ = (t.name, t.dtype, t.shape, t.size, t.nbytes)
+                    repr(t)
+                    inc("tensor_entry_point_with_base_path_returned")
+                except Exception:  # noqa: BLE001
+                    inc("tensor_entry_point_with_base_path_raised")
+
+
 def check_one(proto_bytes: bytes, scratch: str, seam: fsseam.FsSeam, use_load: bool, inc) -> dict | None:
     """All C17 oracles for one damaged input.  Returns a violation dict or None."""
     try:
@@ -617,6 +685,10 @@ def check_one(proto_bytes: bytes, scratch: str, seam: fsseam.FsSeam, use_load: b
             except Exception as e:  # noqa: BLE001
                 inc("tensor_inspection_raised")
                 _ = e
+        try:
+            _probe_tensor_entry_point(proto, inc)
+        except _Hang:
+            return {"clause": "does-not-terminate", "detail": "deserialize_tensor(proto, base_path) did not finish within 20 s", "key": "does-not-terminate"}
     finally:
         _audit["on"] = False
         signal.setitimer(signal.ITIMER_REAL, 0)
